@@ -75,9 +75,14 @@ func (p Precompile) CreateValidator(
 
 	// Execute the transaction using the message server
 	msgSrv := stakingkeeper.NewMsgServerImpl(&p.stakingKeeper)
-	if _, err = msgSrv.CreateValidator(sdk.WrapSDKContext(ctx), msg); err != nil {
+	// The message runs on a branch of the state that is written back only when it succeeds: a failing precompile call
+	// fails the calling EVM frame, not the transaction, so whatever a message had written before it failed (e.g. the
+	// distribution hooks of a delegation whose bank transfer is then refused) would otherwise stay.
+	msgCtx, writeMsg := ctx.CacheContext()
+	if _, err = msgSrv.CreateValidator(sdk.WrapSDKContext(msgCtx), msg); err != nil {
 		return nil, err
 	}
+	writeMsg()
 
 	// Emit the event for the delegate transaction
 	if err = p.EmitCreateValidatorEvent(ctx, stateDB, msg, delegatorHexAddr); err != nil {
@@ -157,9 +162,14 @@ func (p Precompile) Delegate(
 
 	// Execute the transaction using the message server
 	msgSrv := stakingkeeper.NewMsgServerImpl(&p.stakingKeeper)
-	if _, err = msgSrv.Delegate(sdk.WrapSDKContext(ctx), msg); err != nil {
+	// The message runs on a branch of the state that is written back only when it succeeds: a failing precompile call
+	// fails the calling EVM frame, not the transaction, so whatever a message had written before it failed (e.g. the
+	// distribution hooks of a delegation whose bank transfer is then refused) would otherwise stay.
+	msgCtx, writeMsg := ctx.CacheContext()
+	if _, err = msgSrv.Delegate(sdk.WrapSDKContext(msgCtx), msg); err != nil {
 		return nil, err
 	}
+	writeMsg()
 
 	// Only update the authorization if the contract caller is different from the origin
 	if !isCallerOrigin {
@@ -247,10 +257,15 @@ func (p Precompile) Undelegate(
 
 	// Execute the transaction using the message server
 	msgSrv := stakingkeeper.NewMsgServerImpl(&p.stakingKeeper)
-	res, err := msgSrv.Undelegate(sdk.WrapSDKContext(ctx), msg)
+	// The message runs on a branch of the state that is written back only when it succeeds: a failing precompile call
+	// fails the calling EVM frame, not the transaction, so whatever a message had written before it failed (e.g. the
+	// distribution hooks of a delegation whose bank transfer is then refused) would otherwise stay.
+	msgCtx, writeMsg := ctx.CacheContext()
+	res, err := msgSrv.Undelegate(sdk.WrapSDKContext(msgCtx), msg)
 	if err != nil {
 		return nil, err
 	}
+	writeMsg()
 
 	// Only update the authorization if the contract caller is different from the origin
 	if !isCallerOrigin {
@@ -339,10 +354,15 @@ func (p Precompile) Redelegate(
 	}
 
 	msgSrv := stakingkeeper.NewMsgServerImpl(&p.stakingKeeper)
-	res, err := msgSrv.BeginRedelegate(sdk.WrapSDKContext(ctx), msg)
+	// The message runs on a branch of the state that is written back only when it succeeds: a failing precompile call
+	// fails the calling EVM frame, not the transaction, so whatever a message had written before it failed (e.g. the
+	// distribution hooks of a delegation whose bank transfer is then refused) would otherwise stay.
+	msgCtx, writeMsg := ctx.CacheContext()
+	res, err := msgSrv.BeginRedelegate(sdk.WrapSDKContext(msgCtx), msg)
 	if err != nil {
 		return nil, err
 	}
+	writeMsg()
 
 	// Only update the authorization if the contract caller is different from the origin
 	if !isCallerOrigin {
@@ -430,9 +450,14 @@ func (p Precompile) CancelUnbondingDelegation(
 	}
 
 	msgSrv := stakingkeeper.NewMsgServerImpl(&p.stakingKeeper)
-	if _, err = msgSrv.CancelUnbondingDelegation(sdk.WrapSDKContext(ctx), msg); err != nil {
+	// The message runs on a branch of the state that is written back only when it succeeds: a failing precompile call
+	// fails the calling EVM frame, not the transaction, so whatever a message had written before it failed (e.g. the
+	// distribution hooks of a delegation whose bank transfer is then refused) would otherwise stay.
+	msgCtx, writeMsg := ctx.CacheContext()
+	if _, err = msgSrv.CancelUnbondingDelegation(sdk.WrapSDKContext(msgCtx), msg); err != nil {
 		return nil, err
 	}
+	writeMsg()
 
 	// Only update the authorization if the contract caller is different from the origin
 	if !isCallerOrigin {
